@@ -16,6 +16,8 @@ type SentMsg struct {
 	Type     int
 	Payload  []byte
 	Failed   bool // transport returned an error to the sender
+	// PayStates is the payment table (hash -> state) at the moment of sending.
+	PayStates map[string]PayState
 }
 
 // Messenger implements swap.Messenger for one process.
@@ -31,7 +33,10 @@ func (m *Messenger) SendMessage(peerId string, message []byte, messageType int) 
 	w := m.p.N.W
 	w.mu.Lock()
 	sm := &SentMsg{Seq: len(w.Sent), TraceIdx: len(w.Trace) - 1, From: m.p.N.Name, Epoch: m.p.Epoch, To: peerId, Type: messageType,
-		Payload: append([]byte{}, message...), Failed: fk == FaultBefore}
+		Payload: append([]byte{}, message...), Failed: fk == FaultBefore, PayStates: map[string]PayState{}}
+	for hsh, p := range w.LN.Payments {
+		sm.PayStates[hsh] = p.State
+	}
 	w.Sent = append(w.Sent, sm)
 	w.mu.Unlock()
 	if fk == FaultBefore {
